@@ -17,58 +17,58 @@ ALL = {
          "Held on the executions produced: tens of thousands of generated edit histories interleaved with cache-filling queries run on the real DesignSpace; after every step all views are compared with an independent ordered-list model and a private-state cache-coherence invariant is evaluated.",
          "Trusts the reference model; invalid inputs (ub<lb, out-of-bound values) are outside the workload."),
  "C03": ("exploration", T + "recorders on objective/constraint callables, new-iteration listener log and database census around every driver execution over the algorithm x budget x problem x setting product",
-         "Held on the executions produced: every offline-runnable optimisation and DOE algorithm is executed with small budgets on generated problems under each stop cause; entries created, distinct points evaluated and the returned result are judged.",
+         "Held on the executions produced: every offline-runnable optimisation and DOE algorithm is executed with small budgets on generated problems under each stop cause; entries created, distinct points evaluated and the returned result are judged. Executions without counter reset share the budget since the last reset (verdict for optimisation libraries and sequential DOEs) and the evaluation counter must equal the entries created since that reset; time-sliced runs stopped by max_time/tolerances are part of the workload.",
          "Per-run wall-clock watchdog (inconclusive for that case); algorithms needing unavailable libraries are skipped and listed."),
  "C04": ("exploration", T + "independent optimum-selection reference judged against the reported optimum/result over an exhaustive pattern enumeration of small histories plus generated histories",
-         "Held on the executions produced, with the 2-point x (objective + 2 constraints) x 6-state pattern space enumerated completely in the thorough tier; generated histories with ties, NaN, missing values, min/max, vector constraints and multi-objective Pareto fronts.",
+         "Held on the executions produced, with the 2-point x (objective + 2 constraints) x 6-state pattern space enumerated completely in the thorough tier; generated histories with ties, NaN, missing values, min/max, vector constraints and multi-objective Pareto fronts. A feasible point without a usable objective ranks after every finite value (NaN/missing-objective points may only be reported when no feasible point has a finite objective).",
          "Trusts the reference rule written from the property statement; partially evaluated histories are judged only as far as the statement defines them."),
  "C05": ("exploration", T + "uncached twin + run counters + structural invariant of full caches + open-HDF5-handle census over generated execute/linearize histories for every cache policy",
-         "Held on the executions produced: generated call histories (repeats, near-duplicates, in-place edited inputs, growing differentiated sets, re-opened files) on the real caches; outputs/Jacobians equal the uncached twin's, body runs at most once per distinct input.",
+         "Held on the executions produced: generated call histories (repeats, near-duplicates, in-place edited inputs, growing differentiated sets, re-opened files) on the real caches; outputs/Jacobians equal the uncached twin's, body runs at most once per distinct input. Sparse Jacobian blocks in all 14 SciPy containers, square non-symmetric and rectangular; entries holding only a Jacobian or only outputs that are completed after newer entries are a designed motif.",
          "Trusts the twin discipline; tolerance-based matching judged against the documented metric."),
  "C06": ("exploration", T + "harness residual (re-execution of fresh twin disciplines on the returned data) and exact coupled solution over generated contractive systems x MDA classes x settings",
-         "Held on the executions produced: every MDA class and composition is run on generated contractive linear/tanh systems with known exact solution; the returned data must be a fixed point within the requested tolerance and agree across algorithms, orders, acceleration, relaxation, scaling and warm start.",
+         "Held on the executions produced: every MDA class and composition is run on generated contractive linear/tanh systems with known exact solution; the returned data must be a fixed point within the requested tolerance and agree across algorithms, orders, acceleration, relaxation, scaling and warm start. Settings re-assigned after construction (tolerance, max_mda_iter) are judged against the settings in force at execute time.",
          "Bounded progress instead of liveness (max_mda_iter); algorithm/system pairs without convergence guarantee can only be held or inconclusive."),
  "C07": ("exploration", T + "closed-form implicit-function reference compared with MDA.linearize over generated systems x modes x matrix types x solvers x requested subsets x request sequences",
-         "Held on the executions produced: total derivatives returned by the real JacobianAssembly are compared block by block with (I-dG/dy)^-1 dG/dx built from the harness partials, for every mode/representation/solver/subset combination generated.",
+         "Held on the executions produced: total derivatives returned by the real JacobianAssembly are compared block by block with (I-dG/dy)^-1 dG/dx built from the harness partials, for every mode/representation/solver/subset combination generated. Discipline Jacobian blocks are returned as float64/int/float32/complex/Fortran/strided/read-only arrays; the true residual of every linear solve is measured.",
          "Well-conditioned systems only (cond<=1e3); tolerance 1e-7 relative."),
  "C08": ("exploration", T + "independent SCC/reachability reference judged against CouplingStructure/DependencyGraph outputs, exhaustive over all digraphs on <=3 (quick) / <=4 (thorough) nodes, plus execution equivalence",
          "Held on the executions produced, exhaustive over all small dependency graphs (all self-loop subsets and listing orders); random larger graphs; chain / MDA-chain outputs compared with a monolithic evaluation.",
          "Trusts the harness Tarjan/reachability implementation (cross-checked against brute force)."),
  "C09": ("exploration", T + "forward-accumulation reference along the executed dataflow compared with process.linearize over generated acyclic compositions x request sequences",
-         "Held on the executions produced: chains, parallel chains, additive chains, MDA chains and nestings of generated disciplines are linearized for sequences of requested subsets; every returned block is compared with the exact chain rule, including explicit zero blocks.",
+         "Held on the executions produced: chains, parallel chains, additive chains, MDA chains and nestings of generated disciplines are linearized for sequences of requested subsets; every returned block is compared with the exact chain rule, including explicit zero blocks. Request histories are biased towards subsets that exclude (or only include) the inputs of the last producer of an overwritten variable.",
          "Sampled points only ('for every real input' is approximated)."),
  "C10": ("exploration", T + "independent expression-tree evaluator (value, Jacobian) compared with the composed MDOFunction objects over generated trees and helper constructions",
-         "Held on the executions produced: generated expression trees and every helper named in the property are evaluated and differentiated at several points and compared with textbook rules; operands' arrays are checked for mutation; smooth-max bounds checked.",
+         "Held on the executions produced: generated expression trees and every helper named in the property are evaluated and differentiated at several points and compared with textbook rules; operands' arrays are checked for mutation; smooth-max bounds checked. Linear operands also carry SciPy-sparse coefficients; the observable state of every operand is compared after each helper and after evaluating its result.",
          "Sampled points only; tolerance 1e-11 relative."),
  "C11": ("exploration", T + "state-machine workload over Database store/export/reload with a deep equality oracle and an open-HDF5-handle census; round trips of design spaces, problems and caches",
-         "Held on the executions produced: generated store/export histories (append after any interleaving of new points and new outputs) reload to the same content as a single export; design-space, problem and cache files reload equal.",
+         "Held on the executions produced: generated store/export histories (append after any interleaving of new points and new outputs) reload to the same content as a single export; design-space, problem and cache files reload equal. Append exports go to several targets (root and nodes of the same file, other files) in any interleaving.",
          "Equality after documented representation normalisation (atleast_1d float)."),
  "C12": ("fault_enumeration", T + "process death injected inside the k-th discipline execution for every k of the run (child processes), side log + backup file + restarted run judged offline (prefix, no rework, same history)",
-         "Held on the executions produced: every crash point of the reference runs is enumerated in the thorough tier for MDO and DOE scenarios with both backup granularities and pre-filled files; the backup must load, be the exact prefix, hold no open handle, and the restart must not re-execute stored points.",
+         "Held on the executions produced: every crash point of the reference runs is enumerated in the thorough tier for MDO and DOE scenarios with both backup granularities and pre-filled files; the backup must load, be the exact prefix, hold no open handle, and the restart must not re-execute stored points. Restarts are run with the kept counter and with the default counter reset; the first two and last three crash points are always in the quick tier.",
          "Crashes only during discipline executions (as the property states), not inside an HDF5 write."),
  "C13": ("fault_enumeration", T + "forced completion orders with gated workers (threads and forked processes), exhaustive over all orders the pool allows for small task counts x failing subsets; yield injection via sys.monitoring on cache/lock code; offline check of the callback log",
-         "Held on the executions produced: all feasible completion orders for n<=4 (quick) / n<=6 (thorough) thread tasks and n<=3/4 process tasks x worker counts x failing subsets are forced on the real CallableParallelExecution and judged (positional results, exactly-once callbacks, isolated failures); parallel DOE/chains/FD/linearization equal their sequential twins; shared caches keep their invariants under injected yields.",
+         "Held on the executions produced: all feasible completion orders for n<=4 (quick) / n<=6 (thorough) thread tasks and n<=3/4 process tasks x worker counts x failing subsets are forced on the real CallableParallelExecution and judged (positional results, exactly-once callbacks, isolated failures); parallel DOE/chains/FD/linearization equal their sequential twins; shared caches keep their invariants under injected yields. Parallel vs serial derivative approximation over step modes (constructor / call / per-component), component subsets and design spaces.",
          "fork start method only; thread interleavings under injected yields are sampled, not enumerated."),
  "C14": ("exploration", T + "oracle on generated samples (bounds, integrality, column order, documented count, determinism, unit-to-physical image) over every DOE algorithm x space x setting",
-         "Held on the executions produced: every DOE algorithm of the factory is called on generated bounded mixed-type spaces with several sample counts and seeds; samples are judged against an independent unnormalisation and the documented counts.",
+         "Held on the executions produced: every DOE algorithm of the factory is called on generated bounded mixed-type spaces with several sample counts and seeds; samples are judged against an independent unnormalisation and the documented counts. Mapping-based CustomDOE inputs with shuffled key orders.",
          "Documented counts transcribed from the settings documentation."),
  "C15": ("exploration", T + "lock-step dictionary model + icontract well-formedness invariant + reference JSON-schema validator over generated grammar edit histories",
          "Held on the executions produced: generated edit histories on JSON, simple (and pydantic) grammars are mirrored by a dictionary model; names/required/defaults and validation verdicts on data batteries must agree after every step, and JSON grammars must agree with jsonschema.",
          "Subtype corners the two grammar kinds cannot both express are observations only."),
  "C16": ("exploration", T + "recorder on the differentiated function (every evaluated point) + closed-form gradient/derivative-bound oracle over generated and directed cases",
-         "Held on the executions produced: thousands of generated (approximator, function, point, step, subset, design space, serial/parallel) cases and discipline-level linearize/check_jacobian cases are run on the real approximators; each Jacobian is judged against the closed-form gradient within the method's theoretical error bound and every evaluated point against the upper bounds.",
+         "Held on the executions produced: thousands of generated (approximator, function, point, step, subset, design space, serial/parallel) cases and discipline-level linearize/check_jacobian cases are run on the real approximators; each Jacobian is judged against the closed-form gradient within the method's theoretical error bound and every evaluated point against the upper bounds. The step is given to the constructor or to f_gradient; discipline caches have tolerance 0 or above the step.",
          "Trusts the harness closed forms and derivative bounds; steps limited to a numerically safe range."),
  "C17": ("exploration", T + "exact coupled solution and implicit-function reference compared with MDF/IDF/DisciplinaryOpt problem functions over generated systems; short optimisations",
-         "Held on the executions produced: for generated coupled systems the real formulations' objective, constraints, derivatives and design spaces are compared across MDF, IDF (at consistent couplings) and DisciplinaryOpt, and small convex optimisations reach the same optimum.",
+         "Held on the executions produced: for generated coupled systems the real formulations' objective, constraints, derivatives and design spaces are compared across MDF, IDF (at consistent couplings) and DisciplinaryOpt, and small convex optimisations reach the same optimum. IDF with start_at_equilibrium (start-point clause) and on 2 threads; MDF with use_lu_fact / warm_start.",
          "Optimisation runs that stop on their budget are inconclusive for that clause only."),
  "C18": ("exploration", T + "Richardson-extrapolated differences of the model's own prediction compared with predict_jacobian; interpolation, transformer round-trip and surrogate-discipline oracles over regressor x transformer configurations",
-         "Held on the executions produced: every regressor exposing Jacobians is fitted on generated learning sets with each transformer pipeline; the predicted Jacobian is compared with the derivative of the model's own prediction.",
+         "Held on the executions produced: every regressor exposing Jacobians is fitted on generated learning sets with each transformer pipeline; the predicted Jacobian is compared with the derivative of the model's own prediction. Sub-models of composite regressors carry their own transformers; every model also goes through a life cycle (re-training the same instance on other learning sets, clauses re-judged after each training).",
          "Query points kept away from learning points for non-smooth kernels; tolerance 1e-6."),
  "C19": ("exploration", T + "closed-form laws (math/numpy/scipy.special only) compared with SP/OT distributions, parameter-space maps and seeded-sample statistics with >=7-sigma thresholds",
-         "Held on the executions produced: every distribution family with admissible random parameters is judged on CDF/quantile inverse relations, moments, support, range and samples; SP and OT versions are compared; parameter-space transforms are judged against the laws.",
+         "Held on the executions produced: every distribution family with admissible random parameters is judged on CDF/quantile inverse relations, moments, support, range and samples; SP and OT versions are compared; parameter-space transforms are judged against the laws. Parameter spaces are edited (rename/remove/add/filter/extract/rebuild) before the clauses; a boundary-value stratum (exact zeros, ints, unit values, bounds on mean/mode) is applied to every parameter generator.",
          "Statistical clauses are deterministic given the seed (DKW band, failure probability <1e-11)."),
  "C20": ("exploration", T + "behavioural twin comparison of original vs restored objects + identity walk for shared mutable state over classes x life moments x protocols",
-         "Held on the executions produced: every constructible discipline/process/function/space/problem class is pickled at several life moments with three protocols; the restored object must expose the same grammars/settings, return the same outputs/Jacobians/results, share no in-memory mutable state and carry counters as values.",
+         "Held on the executions produced: every constructible discipline/process/function/space/problem class is pickled at several life moments with three protocols; the restored object must expose the same grammars/settings, return the same outputs/Jacobians/results, share no in-memory mutable state and carry counters as values. Grammars are pickled after random sequences of cache-filling reads and edits; the fresh-interpreter protocol restores under different hash seeds.",
          "Classes needing external tools are skipped and listed in the evidence."),
 }
 CHECKS = {k: ALL[k] + (f"DESIGN.md section 3, {k}",) for k in ENABLED}
